@@ -1001,8 +1001,36 @@ where
                     let d: String = m.drain(r).collect();
                     (m, d)
                 });
+                let cap_before = f.capacity();
                 let got = guarded(|| f.split_off(r));
-                check_split(ctx, "FixedBumpString", exp, got.map(|x| x.as_str().to_string()), &f, &mut model, r);
+                let got = match got {
+                    Ok(mut off) => {
+                        let text = off.as_str().to_string();
+                        // C16: the two parts are independent and share the original capacity
+                        if off.capacity() + f.capacity() != cap_before {
+                            ctx.viol("C16", "capacities_do_not_add_up:FixedBumpString".into(), format!("{} + {} != {cap_before} after split_off {r:?}", off.capacity(), f.capacity()));
+                        }
+                        let rest_before = f.as_str().to_string();
+                        for _ in 0..(off.capacity() - off.len()).min(64) {
+                            off.push('z');
+                        }
+                        if f.as_str() != rest_before {
+                            ctx.viol("C16", "sibling_part_changed:FixedBumpString".into(), format!("filling the split-off part changed the remainder: {:?} -> {:?}", rest_before, f.as_str()));
+                        }
+                        let off_now = off.as_str().to_string();
+                        for _ in 0..(f.capacity() - f.len()).min(64) {
+                            f.push('y');
+                        }
+                        if off.as_str() != off_now {
+                            ctx.viol("C16", "sibling_part_changed:FixedBumpString".into(), format!("filling the remainder changed the split-off part: {:?} -> {:?}", off_now, off.as_str()));
+                        }
+                        f.truncate(rest_before.len());
+                        ctx.rep.count("string_split_parts_filled");
+                        Ok(text)
+                    }
+                    Err(p) => Err(p),
+                };
+                check_split(ctx, "FixedBumpString", exp, got, &f, &mut model, r);
             }
         }
         2 | 3 => {
@@ -1056,8 +1084,36 @@ where
                     let d: String = m.drain(r).collect();
                     (m, d)
                 });
+                let cap_before = v.capacity();
                 let got = guarded(|| v.split_off(r));
-                check_split(ctx, "BumpString", exp, got.map(|x| x.as_str().to_string()), &v, &mut model, r);
+                let got = match got {
+                    Ok(mut off) => {
+                        let text = off.as_str().to_string();
+                        // C16: the two parts are independent and share the original capacity
+                        if off.capacity() + v.capacity() != cap_before {
+                            ctx.viol("C16", "capacities_do_not_add_up:BumpString".into(), format!("{} + {} != {cap_before} after split_off {r:?}", off.capacity(), v.capacity()));
+                        }
+                        let rest_before = v.as_str().to_string();
+                        for _ in 0..(off.capacity() - off.len()).min(64) {
+                            off.push('z');
+                        }
+                        if v.as_str() != rest_before {
+                            ctx.viol("C16", "sibling_part_changed:BumpString".into(), format!("filling the split-off part changed the remainder: {:?} -> {:?}", rest_before, v.as_str()));
+                        }
+                        let off_now = off.as_str().to_string();
+                        for _ in 0..(v.capacity() - v.len()).min(64) {
+                            v.push('y');
+                        }
+                        if off.as_str() != off_now {
+                            ctx.viol("C16", "sibling_part_changed:BumpString".into(), format!("filling the remainder changed the split-off part: {:?} -> {:?}", off_now, off.as_str()));
+                        }
+                        v.truncate(rest_before.len());
+                        ctx.rep.count("string_split_parts_filled");
+                        Ok(text)
+                    }
+                    Err(p) => Err(p),
+                };
+                check_split(ctx, "BumpString", exp, got, &v, &mut model, r);
             }
             if fam == 3 {
                 ctx.begin("BumpString::into_cstr".into());
